@@ -23,9 +23,37 @@ package ecs
 //@ pred validID(i uint8) bool = i < 64
 //@ endif
 
-//@ pred subset(a Mask, b Mask) bool = forall! i uint8 :: specBit(a, i) ==> specBit(b, i)
-//@ pred meets(a Mask, b Mask) bool = exists! i uint8 :: specBit(a, i) && specBit(b, i)
+// Set relations, defined bit by bit (this is the meaning taken from the property statement) ...
+//@ pred subsetBits(a Mask, b Mask) bool = forall! i uint8 :: specBit(a, i) ==> specBit(b, i)
+//@ pred meetsBits(a Mask, b Mask) bool = exists! i uint8 :: specBit(a, i) && specBit(b, i)
 //@ pred sameSet(a Mask, b Mask) bool = forall! i uint8 :: specBit(a, i) == specBit(b, i)
+// ... and word-level forms used inside larger contracts to keep the SMT terms small; the two lemmas
+// below prove them equivalent for all masks, so every contract that mentions subset/meets means the bit-level relation.
+//@ if !tiny
+//@ pred subset(a Mask, b Mask) bool = (a.bits[0] &^ b.bits[0]) == 0 && (a.bits[1] &^ b.bits[1]) == 0 && (a.bits[2] &^ b.bits[2]) == 0 && (a.bits[3] &^ b.bits[3]) == 0
+//@ pred meets(a Mask, b Mask) bool = (a.bits[0] & b.bits[0]) != 0 || (a.bits[1] & b.bits[1]) != 0 || (a.bits[2] & b.bits[2]) != 0 || (a.bits[3] & b.bits[3]) != 0
+//@ endif
+//@ if tiny
+//@ pred subset(a Mask, b Mask) bool = (a.bits &^ b.bits) == 0
+//@ pred meets(a Mask, b Mask) bool = (a.bits & b.bits) != 0
+//@ endif
+// word-level views of the binary operations (extra proved facts for callers; the bit-level clauses are the specification)
+//@ if !tiny
+//@ pred wordsAnd(r Mask, a Mask, b Mask) bool = r.bits[0] == a.bits[0] & b.bits[0] && r.bits[1] == a.bits[1] & b.bits[1] && r.bits[2] == a.bits[2] & b.bits[2] && r.bits[3] == a.bits[3] & b.bits[3]
+//@ pred wordsOr(r Mask, a Mask, b Mask) bool = r.bits[0] == a.bits[0] | b.bits[0] && r.bits[1] == a.bits[1] | b.bits[1] && r.bits[2] == a.bits[2] | b.bits[2] && r.bits[3] == a.bits[3] | b.bits[3]
+//@ pred wordsXor(r Mask, a Mask, b Mask) bool = r.bits[0] == a.bits[0] ^ b.bits[0] && r.bits[1] == a.bits[1] ^ b.bits[1] && r.bits[2] == a.bits[2] ^ b.bits[2] && r.bits[3] == a.bits[3] ^ b.bits[3]
+//@ endif
+//@ if tiny
+//@ pred wordsAnd(r Mask, a Mask, b Mask) bool = r.bits == a.bits & b.bits
+//@ pred wordsOr(r Mask, a Mask, b Mask) bool = r.bits == a.bits | b.bits
+//@ pred wordsXor(r Mask, a Mask, b Mask) bool = r.bits == a.bits ^ b.bits
+//@ endif
+//@ lemma subsetDef(a Mask, b Mask)
+//@   props C04
+//@   ensures subset(a, b) == subsetBits(a, b)
+//@ lemma meetsDef(a Mask, b Mask)
+//@   props C04
+//@   ensures meets(a, b) == meetsBits(a, b)
 
 //@ func Mask.Get(b, bit) (r)
 //@   props C04
@@ -64,16 +92,19 @@ package ecs
 //@ func Mask.And(b, other) (r)
 //@   props C04
 //@   requires other != nil
+//@   ensures wordsAnd(r, *b, *other)
 //@   ensures forall! i uint8 :: specBit(r, i) == (specBit(*b, i) && specBit(*other, i))
 
 //@ func Mask.Or(b, other) (r)
 //@   props C04
 //@   requires other != nil
+//@   ensures wordsOr(r, *b, *other)
 //@   ensures forall! i uint8 :: specBit(r, i) == (specBit(*b, i) || specBit(*other, i))
 
 //@ func Mask.Xor(b, other) (r)
 //@   props C04
 //@   requires other != nil
+//@   ensures wordsXor(r, *b, *other)
 //@   ensures forall! i uint8 :: specBit(r, i) == (specBit(*b, i) != specBit(*other, i))
 
 //@ func Mask.TotalBitsSet(b) (r)
@@ -134,3 +165,56 @@ package ecs
 //@   requires forall! i uint8 :: validID(i) ==> specBit(exc, i) == !specBit(inc, i)
 //@   requires forall! i uint8 :: !validID(i) ==> !specBit(m, i) && !specBit(inc, i)
 //@   ensures maskFilterMatches(inc, exc, m) == sameSet(m, inc)
+
+// ---------------------------------------------------------------------------------------------
+// C12 — subscriptions (the documented rule), shared by ecs and listener
+// ---------------------------------------------------------------------------------------------
+
+//@ pred subRule(trigger event.Subscription, added *Mask, removed *Mask, subs *Mask, oldRel *ID, newRel *ID) bool =
+//@   trigger != 0 && (subs == nil
+//@     || ((trigger & event.Relations) != 0 && ((oldRel != nil && specBit(*subs, oldRel.id)) || (newRel != nil && specBit(*subs, newRel.id))))
+//@     || ((trigger & (event.EntityCreated | event.ComponentAdded)) != 0 && added != nil && meets(*subs, *added))
+//@     || ((trigger & (event.EntityRemoved | event.ComponentRemoved)) != 0 && removed != nil && meets(*subs, *removed)))
+
+//@ func subscribes(trigger, added, removed, subs, oldRel, newRel) (r)
+//@   props C12 C11
+//@   requires oldRel != nil ==> validID(oldRel.id)
+//@   requires newRel != nil ==> validID(newRel.id)
+//@   ensures r == subRule(trigger, added, removed, subs, oldRel, newRel)
+
+//@ func subscription(entityCreated, entityRemoved, componentAdded, componentRemoved, relationChanged, targetChanged) (r)
+//@   props C11 C12
+//@   ensures ((r & event.EntityCreated) != 0) == entityCreated
+//@   ensures ((r & event.EntityRemoved) != 0) == entityRemoved
+//@   ensures ((r & event.ComponentAdded) != 0) == componentAdded
+//@   ensures ((r & event.ComponentRemoved) != 0) == componentRemoved
+//@   ensures ((r & event.RelationChanged) != 0) == relationChanged
+//@   ensures ((r & event.TargetChanged) != 0) == targetChanged
+//@   ensures (r & ^event.All) == 0
+
+// monotonicity: a listener with a larger subscription and a larger (or no) component restriction
+// never misses an event that a smaller one selects; this is why Dispatch may hand the world the union.
+//@ lemma subMono(t1 event.Subscription, t2 event.Subscription, added *Mask, removed *Mask, s1 *Mask, s2 *Mask, oldRel *ID, newRel *ID)
+//@   props C12
+//@   requires (t1 & ^t2) == 0
+//@   requires s2 == nil || (s1 != nil && subset(*s1, *s2))
+//@   requires subRule(t1, added, removed, s1, oldRel, newRel)
+//@   ensures subRule(t2, added, removed, s2, oldRel, newRel)
+
+// Listener interface: Subscriptions/Components are pure functions of the listener (A4);
+// Notify is recorded in ghost state: how often each listener was notified and with which event.
+//@ uf lsSubs(l Listener) event.Subscription
+//@ uf lsComps(l Listener) *Mask
+//@ uf evtId(e EntityEvent) int
+//@ ghostglobal notifyCount map[ref]int
+//@ ghostglobal notifyLast map[ref]int
+
+//@ iface Listener.Subscriptions(self) (r)
+//@   ensures r == lsSubs(self)
+//@ iface Listener.Components(self) (r)
+//@   ensures r == lsComps(self)
+//@ iface Listener.Notify(self, world, evt)
+//@   flag nodirty
+//@   ensures notifyCount[self.val] == old(notifyCount[self.val]) + 1
+//@   ensures notifyLast[self.val] == evtId(evt)
+//@   modifies notifyCount[self.val], notifyLast[self.val]
